@@ -281,6 +281,36 @@ def lattice(depth, width, value):
     return "\n".join(L) + "\n"
 
 
+def pure_diamond(depth, width=2):
+    """helpers from which NO module-scope variable is reachable (math/noise code)"""
+    L = ["@group(0) @binding(0) var<storage, read_write> data: array<f32, 4>;",
+         "fn p0(x: f32) -> f32 { return x * 0.5 + 1.0; }"]
+    for k in range(1, depth + 1):
+        L.append("fn p%d(x: f32) -> f32 { return %s; }" % (k, " + ".join(
+            "p%d(x + %d.0)" % (k - 1, j) for j in range(width))))
+    L.append("fn v0() { }")
+    for k in range(1, depth + 1):
+        L.append("fn v%d() { %s }" % (k, " ".join(["v%d();" % (k - 1)] * width)))
+    L.append("@compute @workgroup_size(1) fn c0() { v%d(); data[0] = p%d(1.0); }" % (depth, depth))
+    return "\n".join(L) + "\n"
+
+
+def else_if_chain(arms, with_call):
+    L = list(HDR3) + ["fn leaf() -> f32 { data[2] = aux.z; return data[2]; }",
+                      "fn side() { data[3] = aux.w; }",
+                      "@compute @workgroup_size(1) fn c0() {", "  var acc: f32 = data[0];"]
+    chain = []
+    for k in range(arms):
+        body = "acc = acc + %d.0;" % k
+        if with_call and k % 7 == 3:
+            body += " side();"
+        chain.append("if (acc < %d.5) { %s }" % (k, body))
+    L.append("  " + " else ".join(chain) + " else { acc = acc + leaf(); }")
+    L.append("  data[1] = acc;")
+    L.append("}")
+    return "\n".join(L) + "\n"
+
+
 ERR_FAMILIES = {"err_sparse_group": "NonConsecutiveBindGroups"}
 
 
@@ -303,6 +333,13 @@ def families(tier):
     for d in [2, 4, 8, 12, 16, 24, 32]:
         F.append(("value_lattice_w3", d, lattice(d, 3, True)))
         F.append(("void_lattice_w4", d, lattice(d, 4, False)))
+    for d in [2, 4, 8, 12, 16, 24, 32, 48, 64]:
+        F.append(("pure_diamond_w2", d, pure_diamond(d)))
+    for d in [2, 4, 8, 12, 16, 24, 32]:
+        F.append(("pure_diamond_w3", d, pure_diamond(d, 3)))
+    for a in [2, 4, 8, 16, 24, 32, 48, 64, 100]:
+        F.append(("else_if_chain", a, else_if_chain(a, False)))
+        F.append(("else_if_chain_calls", a, else_if_chain(a, True)))
     # hundreds of functions: the walk's bookkeeping must not depend on how many there are
     for fillers in [0, 60, 120, 130, 200, 300]:
         F.append(("padded_value_diamond", fillers, padded_graph(fillers, 32, True)))
